@@ -816,7 +816,19 @@ class Interp:
             e = v.e
             alts = type_alternatives(v.T) if v.T else None
             if alts is None or any(a[0] == 'any' for a in alts):
-                raise Unsupported('truthiness of an untyped value')
+                # dynamic truthiness by tag; objects: containers by length, Note/StickyNote by their
+                # text (the only __bool__ in pydbml), everything else truthy
+                st = self.st
+                r = Val.rv(e)
+                cid = self.reg.cid
+                obj_truth = z3.If(z3.Or(cls_of(r) == cid('list'), cls_of(r) == cid('tuple')), st.L_len[r] > 0,
+                                  z3.If(cls_of(r) == cid('dict'), st.D_n[r] > 0,
+                                        z3.If(z3.Or(cls_of(r) == cid('Note'), cls_of(r) == cid('StickyNote')),
+                                              z3.And(Val.is_s(st.F('text')[r]), Val.sv(st.F('text')[r]) != SVAL('')),
+                                              z3.BoolVal(True))))
+                return z3.Or(z3.And(Val.is_b(e), Val.bv(e)), z3.And(Val.is_i(e), Val.iv(e) != 0),
+                             z3.And(Val.is_s(e), Val.sv(e) != SVAL('')), z3.And(Val.is_r(e), obj_truth),
+                             z3.And(Val.is_f(e), float_nonzero(Val.fv(e))), Val.is_c(e))
             parts = []
             for a in alts:
                 if a[0] == 'none':
